@@ -243,6 +243,9 @@ def check_ops(case, ctx, bound):
         out['lengths'] = np.asarray(ops.assemble_striped_array(L[rank::R].copy())).tolist()
         out['max'] = float(ops.striped_array_max(loc))
         out['mean'] = float(ops.striped_array_mean(loc))
+        loc2 = np.stack([loc, loc * 2 + 1], axis=1)          # the same stripe as a 2-d (frames x 2) array
+        out['max2d'] = float(ops.striped_array_max(loc2))
+        out['mean2d'] = float(ops.striped_array_mean(loc2))
         out['ragged'] = np.asarray(ops.assemble_striped_ragged_array(loc, L)).tolist()
         out['ragged_int'] = np.asarray(ops.assemble_striped_ragged_array(stripes[rank].astype(int), L)).tolist()
         out['randind'] = [tuple(int(v) for v in ops.randind(loc, FixedRNG(g))) for g in range(n)]
@@ -269,6 +272,11 @@ def check_ops(case, ctx, bound):
                 ctx.violation('ops:striped_array_max', c, 'rank %d: %r != %r' % (r, o['max'], flat.max()))
             if abs(o['mean'] - flat.mean()) > 1e-12:
                 ctx.violation('ops:striped_array_mean', c, 'rank %d: %r != %r' % (r, o['mean'], flat.mean()))
+            flat2 = np.stack([flat, flat * 2 + 1], axis=1)
+            if o['max2d'] != flat2.max():
+                ctx.violation('ops:striped_array_max:2d', c, 'rank %d: %r != %r' % (r, o['max2d'], flat2.max()))
+            if abs(o['mean2d'] - flat2.mean()) > 1e-12 * max(1.0, abs(flat2.mean())):
+                ctx.violation('ops:striped_array_mean:2d', c, 'rank %d: mean of a (frames x 2) striped array %r != np.mean of the whole %r' % (r, o['mean2d'], flat2.mean()))
             if o['ragged'] != flat.tolist():
                 ctx.violation('ops:assemble_striped_ragged_array', c, 'rank %d: %r != %r' % (r, o['ragged'], flat.tolist()))
             if o['ragged_int'] != list(range(n)):
